@@ -101,15 +101,19 @@ def _pm_labels(L):
 c.loop("iter:metric.labels", body_ensures=_pm_labels, modifies=lambda L: [("dict", L.local("labels"))])
 
 
+@class_invariant("MetricActionContext")
+def inv_metric_context(S_, a):
+    """metric actions are only built for tracepoints with metric definitions (build_metric_action)"""
+    h = S_.new
+    cfg = h.f(h.f(a, "location_action"), "LocationAction.__config")
+    m = h.dget(cfg, "metrics")
+    return And(inv_action_context(S_, a), h.dhas(cfg, "metrics"), S_.pre(m, "list"), h.llen(m) >= 0,
+               S_.elems(m, OBJ("MetricDefinition")))
+
+
 # ---------------------------------------------------------------- MetricActionContext._process_action
 c = contract(MA, "MetricActionContext._process_action", ["C17", "C20"])
 c.param("self", OBJ("MetricActionContext"))
-c.req("metrics-are-definitions", lambda S_: And(
-    S_.old.dhas(S_.old.f(S_.old.f(S_.a.self, "location_action"), "LocationAction.__config"), "metrics"),
-    S_.I.assume_shape(S_.old.dget(S_.old.f(S_.old.f(S_.a.self, "location_action"), "LocationAction.__config"), "metrics"),
-                      LIST(OBJ("MetricDefinition"))) or z3.BoolVal(True),
-    S_.elems(S_.old.dget(S_.old.f(S_.old.f(S_.a.self, "location_action"), "LocationAction.__config"), "metrics"),
-             OBJ("MetricDefinition"))))
 c.result = VAL
 c.host_ops_exc_base = "Exception"
 c.logged = "_process_action"
